@@ -37,6 +37,10 @@ pub const SEARCH_ROOTS: &[(&str, &str, usize, usize)] = &[
     ("K+R v k+r", "4k3/8/4r3/8/8/4R3/8/4K3 w - - 0 1", 2, 2),
     ("knight ending, two pawns each", "4k1n1/1p4p1/8/8/8/8/1P4P1/1N2K3 w - - 0 1", 2, 2),
     ("knight ending with fixed pawns", "8/3k1p2/3n4/1p6/1P3P2/3N4/5K2/8 w - - 0 1", 2, 2),
+    // pawn races: the value changes by a queen between one iteration and the next
+    ("K v k+p, the pawn cannot be caught", "8/8/8/k7/7P/8/8/K7 b - - 0 1", 2, 3),
+    ("K+P v k+p, race on opposite wings", "8/p7/8/8/8/8/7P/k6K w - - 0 1", 2, 3),
+    ("K+P v k, stalemate tricks near promotion (under-promotion wins)", "8/1P6/8/8/8/8/5K2/7k w - - 0 1", 2, 3),
 ];
 
 /// Small positions get single fixed-depth searches to depth 4 in the quick tier as well.
@@ -167,6 +171,14 @@ pub fn run(tier: &str, seed: u64, out: &str) {
                 jobs.push((*b, 4, true));
                 if small && thorough {
                     jobs.push((*b, 5, true));
+                }
+                // and through iterative deepening (find_best_move): what a `go depth 4/5` does
+                if small {
+                    jobs.push((*b, 4, false));
+                    jobs.push((*b, 5, false));
+                    if thorough {
+                        jobs.push((*b, 6, false));
+                    }
                 }
             }
         }
